@@ -709,9 +709,11 @@ class EvolutionSuperOperator(SuperOperator, TimeDependent, Saveable):
         if time is not None:
             ti, dt = self.time.locate(time)
 
-            return SuperOperator(data=self.data[ti, :, :, :, :])
+            # the returned object must not share memory with this object
+            # (both are basis managed and are transformed independently)
+            return SuperOperator(data=numpy.array(self.data[ti, :, :, :, :]))
         else:
-            return SuperOperator(data=self.data)
+            return SuperOperator(data=numpy.array(self.data))
 
           
     def apply(self, time, target, copy=True):
